@@ -196,6 +196,10 @@ def fam_cont(rnd, n):
         mode = "quiet" if i % 2 == 0 else "free"
         # every fifth plan leaves Checks.Delay unset: the continuous checks then run back to back
         cd = -1 if i % 5 == 4 and mode == "free" else rnd.choice([50, 150, 400])
+        if cd < 0:
+            # ... and answer at once, so that the loop spends its time in the engine, not in the plugin
+            for who in ("p", "b1"):
+                lat["%s.cont.a1" % who] = [0]
         res.append(scn(sh, mode, out, lat=lat, tag="cont" if cd > 0 else "cont-nodelay", contdelay=cd, latmax=200, quiet=rnd.choice([800, 1500])))
     return res
 
@@ -224,6 +228,25 @@ def fam_group_race(rnd, n):
         if rnd.random() < 0.75:
             out["%s.%s.a%d" % (lvl, g, fast)] = ["perm"]
         res.append(scn(sh, "free", out, lat=lat, tag="group-race", latmax=150, waitms=6000))
+    return res
+
+
+def fam_cont_nodelay(rnd, n):
+    """Many tiny plans whose continuous checks have no Delay and answer at once: the loop runs back to back, so the end
+    of the scope (cancel, drain) lands at every point of a run - between marking the actions Running, launching them
+    and writing the result - sooner or later."""
+    res = []
+    for i in range(n):
+        lvl = rnd.choice(["p", "b1"])
+        pg = {"cont": rnd.choice([1, 2])} if lvl == "p" else {}
+        bg = {"cont": rnd.choice([1, 2])} if lvl == "b1" else {}
+        if rnd.random() < 0.4:
+            (pg if rnd.random() < 0.5 else bg)["deferred"] = 1
+        sh = shape([blk([1] * rnd.choice([1, 2]), conc=1, tol=0, g=bg)] + ([blk([1])] if rnd.random() < 0.3 else []), pg=pg)
+        lat = {a: [rnd.choice([300, 700, 1500])] for a in seq_actions(sh)}
+        for a in (1, 2):
+            lat["%s.cont.a%d" % (lvl, a)] = [0]
+        res.append(scn(sh, "free", {}, lat=lat, tag="cont-nodelay", contdelay=-1, latmax=100, waitms=6000))
     return res
 
 
@@ -259,12 +282,12 @@ def fam_cont_keeps(rnd, n):
         pg = {"cont": 1} if lvl == "p" else {}
         bg = {"cont": 1} if lvl == "b1" else {}
         sh = shape([blk([1, 1], conc=rnd.choice([1, 2]), g=bg)], pg=pg)
-        res.append(scn(sh, "free", {}, hold=["b1.s1.a1"], holduntil={"%s.cont.a1" % lvl: rnd.choice([4, 6, 9])}, tag="cont-keeps", contdelay=100))
+        res.append(scn(sh, "free", {}, hold=["b1.s1.a1"], holduntil={"%s.cont.a1" % lvl: rnd.choice([4, 6, 9])}, tag="cont-keeps", contdelay=100, waitms=9000))
     # the plan's continuous checks go on while the SECOND block executes: an action of block 2 is held until the plan's
     # check has been invoked far more often than block 1 gave it time for
     for i in range(max(1, n // 2)):
         sh = shape([blk([1], g=rnd.choice([{}, {"cont": 1}])), blk([1, 1], conc=rnd.choice([1, 2]))], pg={"cont": 1})
-        res.append(scn(sh, "free", {}, hold=["b2.s1.a1"], holduntil={"p.cont.a1": rnd.choice([14, 20])}, tag="cont-keeps-block2", contdelay=100, latmax=100))
+        res.append(scn(sh, "free", {}, hold=["b2.s1.a1"], holduntil={"p.cont.a1": rnd.choice([14, 20])}, tag="cont-keeps-block2", contdelay=100, latmax=100, waitms=9000))
     return res
 
 
